@@ -65,6 +65,8 @@ class C18(Check):
                 cfgs.append(Config('beta_%s_T%d_K%d' % (tag, T, K), self.beta, {'T': T, 'K': K, 'tag': tag},
                                    split=3 if T * K > 9 else None))
             cfgs.append(Config('floor_%s' % tag, self.floor, {'tag': tag}))
+        # at the public optimiser entry point (argument handling included), n = 1: lambda = 0 is a value too
+        cfgs.append(Config('entry_point_value', self.entry_value, {}, nonlinear=True, split=2))
         cfgs.append(Config('forward_single', self.forward, {'joint': False}))
         cfgs.append(Config('forward_joint', self.forward, {'joint': True}))
         for joint in (False, True):
@@ -113,6 +115,27 @@ class C18(Check):
             return
         c.prove('scalar_lambda_equals_constant_matrix',
                 conj([z3_.shape == z4.shape] + [R(a) == R(b) for a, b in zip(z3_._flat(), z4._flat())]))
+
+    def entry_value(self, c):
+        """admm_optimize_theta(S, lambda, ...) for a scalar lambda >= 0 (zero included) and for the 1 x 1
+        matrix holding the same value: same theta."""
+        Rp = self.R
+        S = stubs.sym_symmetric(c, 'S', 1)
+        lam = c.real('lam', 0)
+        mat = np.ndarray._new([lam], (1, 1), np.float64, owner='caller')
+        c.notes.update({'N': 1, 'W': 1, 'kind': 'value', 'entry': True})
+        outs = []
+        for form in (lam, mat):
+            # 1 x 1: the eigendecomposition is exact -- the eigenvalue is the entry, the eigenvector is [1]
+            stubs.install_linalg(eigh=lambda M, **k: (np.array([np.asarray(M)[0, 0]]), np.array([[1.0]])),
+                                 norm=stubs.norm_exact)
+            ok, res = guarded(c, 'scalar_lambda_equals_constant_matrix', Rp.admm.admm_optimize_theta, S, form, 1, 1,
+                              max_iterations=2)      # the second X-update sees the first Z-update
+            if not ok:
+                return
+            outs.append(np.asarray(res.theta))
+        c.prove('scalar_lambda_equals_constant_matrix',
+                conj([outs[0].shape == outs[1].shape] + [R(a) == R(b) for a, b in zip(outs[0]._flat(), outs[1]._flat())]))
 
     def lam_type(self, c, N, W, tag):
         n = N * W
